@@ -98,6 +98,21 @@ def run(ctx):
                     img = os.path.join(wd, "i%d.mtbl" % len(jobs))
                     open(img, "wb").write(flip(data, bits))
                     jobs.append((img, bi, len(s["blocks"]), {"comp": comp, "pool": pool, "class": klass, "region": region, "block": bi, "bits": [x - lo * 8 for x in bits][:6]}, s))
+    # the smallest blocks there are: one entry of 0, 1 or 2 payload bytes alone in its block (as the whole table, or cut off by a large
+    # next entry), and the empty table - intact (must verify) and with single bits flipped
+    tiny = [[], [(b"", 0)], [(b"a", 0)], [(b"", 1)], [(b"a", 1)], [(b"", 0), (b"b", 1100)], [(b"a", 0), (b"b", 1100), (b"c", 0)]]
+    for ti, spec in enumerate(tiny):
+        for comp in ("none", "zlib") if ti in (1, 5) else ("none",):
+            vg3 = gen.VGen(9900 + ti)
+            path, wrecs, s = TC.write_real_file(ctx, b, wd, "tiny%d_%s" % (ti, comp), gen.writer_cfg(comp=comp, ri=2), [(k, vg3.val(n)) for k, n in spec])
+            data = open(path, "rb").read()
+            jobs.append((path, -1, len(s["blocks"]), {"comp": comp, "class": "intact", "tiny": ti}, s))
+            for bi, blk in enumerate([s["index"]] + s["blocks"]):
+                lo, hi = blk["offset"] + blk["len_prefix"], blk["end"]
+                for x in rng.sample(range(lo * 8, hi * 8), min(6, (hi - lo) * 8)):
+                    img = os.path.join(wd, "i%d.mtbl" % len(jobs))
+                    open(img, "wb").write(flip(data, [x]))
+                    jobs.append((img, bi, len(s["blocks"]), {"comp": comp, "class": "bit1", "region": "crc+payload", "block": bi, "tiny": ti, "bits": [x - lo * 8]}, s))
     # small single-block files whose stored block lengths cover every residue modulo 8 (word-wise checksum code has one
     # tail case per residue): every single bit of checksum field + payload is flipped
     for v in range(20, 28):
@@ -147,10 +162,10 @@ def run(ctx):
                 return ["it_get %d r:0 %s" % (i, gkey.hex()), "it_next %d" % i, "it_destroy %d" % i]
             skey = s["blocks"][target - 1]["entries"][0]["key"]
             return ["it_iter %d r:0" % i, "it_seek %d %s" % (i, skey.hex()), "it_drain %d" % i, "it_destroy %d" % i]
-        runs = [[("iterate", 0)], [("get", rng.randint(1, nb))], [("seek", rng.randint(1, nb))],
+        runs = [[("iterate", 0)]] if label.get("tiny") is not None else [[("iterate", 0)], [("get", rng.randint(1, nb))], [("seek", rng.randint(1, nb))],
                 [("get", nb), ("iterate", 0)],                                   # a later block first, then everything from the start, on one reader
                 [("seek", rng.randint(1, nb)), ("get", rng.randint(1, nb)), ("iterate", 0)]]
-        if label.get("region") == "crc+payload":
+        if label.get("region") == "crc+payload" and label.get("tiny") is None:
             runs = runs[:1] + runs[3:4]
         for run_ in runs:
             # the library's documented environment knob for the reader's madvise behaviour: unset, "0", "1" (must not matter)
